@@ -23,8 +23,8 @@ from harness.lib.model import is_err
 
 RULE = ('histories of attach/detach/receive/settle/reply/disconnect events over a name pool (components a, b, ab, c, '
         'keyword-typed a, binary, typed number, 300-byte component; depth 0..5 incl. the root prefix), each attach '
-        'through a random representation (13 kinds: URI string, str/bytes/bytearray/memoryview component list, encoded '
-        'name as bytes/bytearray/read-only or writable memoryview, writable view of a region of a larger scratch '
+        'through a random representation (16 kinds: URI string, str/bytes/bytearray/memoryview component list, encoded '
+        'name as bytes/bytearray/read-only or writable memoryview, read-only views of caller-owned writable buffers, writable view of a region of a larger scratch '
         'buffer, writable component views into one shared buffer); `scrib` events: the caller overwrites every '
         'writable buffer it handed to attach/detach so far (zeros, 0xFF, the same layout respelling every / only the '
         'last component into another pool name) and the specification machine is run on the history without them '
@@ -269,9 +269,9 @@ def comp(uri):
     return bytes(Component.from_str(uri))
 
 
-N_KINDS = 13
+N_KINDS = 16
 # representations that hand the library a buffer the caller can still write to afterwards
-WRITABLE_KINDS = (3, 5, 7, 9, 10, 11, 12)
+WRITABLE_KINDS = (3, 5, 7, 9, 10, 11, 12, 13, 14, 15)
 N_MODES = 4
 
 
@@ -347,7 +347,22 @@ def represent(rng, name, kind=None, bufs=None):
             out.append(mv[o:o + len(c)])
             o += len(c)
         return kind, out
-    return kind, [own(c) for c in name]     # 12: every component a bytearray
+    if kind == 12:         # every component a bytearray
+        return kind, [own(c) for c in name]
+    # 13-15: READ-ONLY views of buffers the caller still owns and can write to (the view is read-only, the memory is not)
+    if kind == 13:
+        return kind, memoryview(own_name()).toreadonly()
+    if kind == 14:
+        pre, post = b'\x07\x03\x08', b'\x08\x01a\x00\x00'
+        b = own_name(pre, post)
+        return kind, memoryview(b).toreadonly()[len(pre):len(b) - len(post)]
+    b = bytearray(b''.join(name))
+    bufs.append((b, images(b'', [bytes(c) for c in name], b'', b'')))
+    mv, out, o = memoryview(b).toreadonly(), [], 0
+    for c in name:
+        out.append(mv[o:o + len(c)])
+        o += len(c)
+    return kind, out
 
 
 def ns_sexp(arg):
